@@ -150,12 +150,14 @@ Definition check_step (c i : Z) (s : state) (o : op) (ob : obs) : list diff :=
               | Some p => beq r Ok && beq s' (set_pair (flip p) s)
               | None => true
               end) c i 20
-  | OpConvert t dead =>
+  | OpConvert coin t dead =>
       report (negb (beq r Ok) || beq s' s ||
               existsb (fun p => carries t p && existsb (Z.eqb (p_addr p)) dead && beq s' (delete_pair p s)) L) c i 16 ++
       report (match find (designates_b L t) L with
               | Some p =>
                   negb (st_enable s && p_enabled p && existsb (Z.eqb (p_addr p)) dead) ||
+                  (* ConvertCoin of a coin merely named like the pair's address is refused before the contract is looked at *)
+                  (coin && negb (bool_decide (t = p_denom p))) ||
                   (beq r Ok && beq s' (delete_pair p s))
               | None => true
               end) c i 21
